@@ -59,7 +59,7 @@ func GetDecompressor(compression conformancev1.Compression) (connect.Decompresso
 	case conformancev1.Compression_COMPRESSION_UNSPECIFIED, conformancev1.Compression_COMPRESSION_IDENTITY:
 		return &noOpDecompressor{}, nil
 	case conformancev1.Compression_COMPRESSION_GZIP:
-		return &gzip.Reader{}, nil
+		return &gzipDecompressor{}, nil
 	case conformancev1.Compression_COMPRESSION_BR:
 		return NewBrotliDecompressor(), nil
 	case conformancev1.Compression_COMPRESSION_ZSTD:
